@@ -501,15 +501,22 @@ func c15Binary(c *sim.Case) {
 	if sim.ServiceBinary() == "" {
 		c.Skip("no service binary")
 	}
-	w := sim.NewWorld(c, sim.WorldOpts{ViaServer: true, RealFactory: true, Binary: true, Logout: true, AccessToken: true,
+	// a quarter of the deployments find their provider through discovery and the discovery endpoint answers 500 from
+	// the start: every check of theirs ends in an ERROR, not in a verdict, on its way out through the interceptors
+	broken := sim.Weighted(c, "provider-discovery-broken", 3, 1) == 1
+	w := sim.NewWorld(c, sim.WorldOpts{ViaServer: true, RealFactory: true, Binary: true, Logout: true, AccessToken: true, Discovery: broken,
 		BinaryLogLevel: sim.PickStr(c, "binary.log", "debug", "error", "info", "trace"),
 		Store:          sim.PickStr(c, "store", "memory", "redis"), TriggerRules: coveringRules(c, "/a")})
 	defer w.Close()
-	b := w.NewBrowser("a")
-	lr := b.Login("/a")
 	sid := ""
-	if lr.Final != nil && lr.Final.OK {
-		sid = b.SID()
+	if broken {
+		w.IdP.DiscFailFirst = 1 << 40
+		c.Class("service-binary:checks-end-in-errors")
+	} else {
+		b := w.NewBrowser("a")
+		if lr := b.Login("/a"); lr.Final != nil && lr.Final.OK {
+			sid = b.SID()
+		}
 	}
 	n := 5 + sim.Pick(c, "nreq", 40)
 	for i := 0; i < n; i++ {
